@@ -617,7 +617,10 @@ def production_step_units(world):
                 new_pp.attrs["score"] = 0.0
             seen["new"] = new_pp
             it.contracts = dict(it.contracts)
-            it.contracts["ctparse._match_rule"] = lambda it2, f2, args, k: [(0, 1)]
+            def match_rule(it2, f2, args, k):
+                seen["calls"].append(("match_rule", args))
+                return [(0, 1)]
+            it.contracts["ctparse._match_rule"] = match_rule
 
             def apply_rule(it2, f2, args, k):
                 seen["calls"].append(("apply_rule", args))
@@ -655,6 +658,9 @@ def production_step_units(world):
                    ("rule-applied-with-reference-time-rule-name-and-window", ["C15", "C03"],
                     any(c[0] == "apply_rule" and c[1][0] is s_top and getattr(c[1][1], "name", None) == "ts"
                         and getattr(c[1][2], "name", None) == "ruleF" and c[1][3] == "ruleA" and c[1][4] == (0, 1) for c in seen["calls"]))]
+            pat = s_top.attrs["applicable_rules"]["ruleA"][1]
+            out.append(("windows-searched-on-the-candidate-with-the-rule-pattern", ["C15"],
+                        any(c[0] == "match_rule" and c[1][0] is s_top.attrs["prod"] and c[1][1] is pat for c in seen["calls"])))
             if new_pp is None:
                 out.append(("nothing-new-means-the-values-are-emitted", ["C15", "C14"],
                             len(yielded) >= 0 and "score_final" in calls and all(x in seen["stack0"] for x in stack)
